@@ -9,6 +9,7 @@ CONSTANTS
   KF_StaleFlags = FALSE
   KF_NoReloadMutex = FALSE
   DumpFile = ""
+  KF_PortFreedAfterDone = FALSE
   KF_MidEstablishLeak = TRUE
 INVARIANTS
   NoOldConnAfterWait
